@@ -62,6 +62,7 @@ pub fn new_box(area: &str) -> Option<Box<dyn VerifBox>> {
         "c09" => Some(Box::new(crate::protocol::verif_c09::KeepAliveBox::new())),
         "c05" => Some(Box::new(crate::transport::manager::verif_c05::ManagerBox::new())),
         "tcploop" => Some(Box::new(crate::transport::tcp::verif_tcploop::LoopBox::new())),
+        "node" => Some(Box::new(crate::transport::manager::verif_node::NodeBox::new())),
         _ => None,
     }
 }
@@ -89,6 +90,7 @@ pub fn areas() -> Vec<&'static str> {
         "c19",
         "c20",
         "tcploop",
+        "node",
     ]
 }
 
@@ -241,4 +243,43 @@ pub fn c01_clear_statics() {
 /// The identity key that signed the static key `st` on this thread, if any.
 pub fn c01_static_signer(st: &[u8]) -> Option<[u8; 32]> {
     C01_STATICS.with(|m| m.borrow().iter().find(|(s, _)| s == st).map(|(_, id)| *id))
+}
+
+/// One `TransportService` as constructed: (local peer, protocol, fallback names, keep-alive timeout
+/// of its tracker, substream keep-alive flag).
+pub type ServiceNote = (crate::PeerId, String, Vec<String>, std::time::Duration, bool);
+
+thread_local! {
+    /// `node` area: every `TransportService` constructed on this thread since the last
+    /// [`take_services`], recorded by `TransportService::new` from the constructed value.
+    static SERVICES: std::cell::RefCell<Vec<ServiceNote>> =
+        const { std::cell::RefCell::new(Vec::new()) };
+}
+
+/// Record a freshly constructed `TransportService` (ground truth of the `node` area).
+pub fn note_service(
+    local: crate::PeerId,
+    protocol: &crate::types::protocol::ProtocolName,
+    fallback_names: &[crate::types::protocol::ProtocolName],
+    keep_alive_timeout: std::time::Duration,
+    keep_alive: bool,
+) {
+    SERVICES.with(|m| {
+        let mut m = m.borrow_mut();
+        // bounded: adapters that never read the log must not grow it
+        if m.len() < 4096 {
+            m.push((
+                local,
+                protocol.to_string(),
+                fallback_names.iter().map(|n| n.to_string()).collect(),
+                keep_alive_timeout,
+                keep_alive,
+            ));
+        }
+    });
+}
+
+/// Take the services recorded on this thread.
+pub fn take_services() -> Vec<ServiceNote> {
+    SERVICES.with(|m| std::mem::take(&mut *m.borrow_mut()))
 }
